@@ -48,6 +48,9 @@ partial def readVD : Sexp → Option VD
   -- a cleanup of the page (it writes a signal when the render scope / the root is torn down, i.e. after
   -- everything the case observes): no node
   | .list [.atom "oncleanup", .atom _, .atom _] => pure (.frag .nil)
+  -- a write made while the view is built (top level only; the driver applies it to the store up front,
+  -- see `storeAfterBuild`): no node
+  | .list [.atom "setnow", .atom _, .atom _] => pure (.frag .nil)
   | _ => none
 end
 
@@ -121,6 +124,17 @@ partial def showCh : List Ch → String
     let b := showCh r
     if b.isEmpty then a else a ++ "," ++ b
 
+/-- top-level `(setnow g v)` items, in document order: the state the page starts from. The signals they write
+are displayed by dynamic texts and attributes only (patched in place, also on the server), so the built
+view is the view of the final store. -/
+def storeAfterBuild (σ : List Nat) (vs : List Sexp) : List Nat :=
+  vs.foldl (fun σ v => match v with
+    | .list [.atom "setnow", .atom g, .atom x] =>
+      match g.toNat?, x.toNat? with
+      | some g, some x => if g < σ.length then σ.set g x else σ
+      | _, _ => σ
+    | _ => σ) σ
+
 /-- `hydrate run (L vd…) <store> <writes> <ssr>`: after hydration the document shows what a client
 render shows (the SSR string itself is checked by C08/C12); the model ignores the last field -/
 def handleHydrate (line : String) : String :=
@@ -132,10 +146,10 @@ def handleHydrate (line : String) : String :=
   match parts.getLast?, parts.dropLast.getLast? with
   | some writes, some store =>
     match Sexp.parse (" ".intercalate (parts.dropLast.dropLast)) with
-    | some (.list (.atom "L" :: vs)) =>
-      match vs.mapM readVD with
+    | some (.list (.atom "L" :: vs0)) =>
+      match vs0.mapM readVD with
       | some vs =>
-        let σ := (if store == "-" then [] else (store.splitOn ",").filterMap (·.toNat?))
+        let σ := storeAfterBuild (if store == "-" then [] else (store.splitOn ",").filterMap (·.toNat?)) vs0
         let (inst, k) := mountList σ (VDList.ofList vs) 0
         let (m, out) := visTrees [] (domList σ inst)
         let h := match SycVerif.Hydrate.hydrateView σ inst with
